@@ -2,14 +2,18 @@
 (* Builder for C12: a trigger type at depth 0..MaxDepth under containers, at every position,       *)
 (* alone or together with a second trigger, in single- or multi-file mode.                           *)
 EXTENDS Helpers, TLC, Json
-CONSTANTS Triggers, Wrappers, MaxDepth, Positions, Modes
+CONSTANTS Triggers, Wrappers, MaxDepth, Positions, Modes, Names
 VARIABLE c
 Chains == UNION {[1..n -> Wrappers] : n \in 0..MaxDepth}
-Init == c \in [trigger : Triggers, chain : Chains, pos : Positions, second : Triggers \cup {"none"}, mode : Modes]
+\* name: how the member that carries the trigger is called: plain (f) / py_keyword (`from`: Python writes from_ and an alias, which
+\* needs Field whatever the type is) / renamed (serde(rename): an alias again) / kw_all (EVERY member of the item is a keyword, no other
+\* member asks for the helper)
+Init == c \in [trigger : Triggers, chain : Chains, pos : Positions, second : Triggers \cup {"none"}, mode : Modes, name : Names]
 Next == UNCHANGED c
 \* the deepest chains are explored with the trigger alone, folder mode with chains of length <= 1 (the helper logic looks at
 \* the type expression, not at the mode; the mode decides where the shared helper file goes)
-InScope == /\ c.second # c.trigger /\ (c.pos = "const" => c.chain = <<>>)
+InScope == /\ (c.name # "plain" => (c.chain = <<>> /\ c.second = "none" /\ c.pos \in {"field", "vfield", "field_default"}))
+           /\ c.second # c.trigger /\ (c.pos = "const" => c.chain = <<>>)
            /\ (Len(c.chain) >= 3 => c.second = "none")
            /\ (c.mode = "multi" => Len(c.chain) <= 1)
 Emit == InScope => PrintT(<<"REPLAY", ToJson(c)>>)
